@@ -2,7 +2,7 @@
 """Syntactic mutation sweep over one source file of pitt-rnel/pyrtma, judged by whole checks (`./check Cnn`).
 
     tools/mutate_check.py <worktree> <relative file> --checks C09[,C10...] [--only f1,f2] [--skip f1,f2]
-                          [--limit N] [--lines l1,l2] [--out file.jsonl] [--timeout S] [--list]
+                          [--limit N] [--from N] [--lines l1,l2] [--out file.jsonl] [--timeout S] [--list]
 
 The worktree is a scratch `git worktree` of /repo (never /repo itself).  For every mutant (comparison / boolean operator
 swaps, 0<->1 constants, deleted simple statements, negated conditions, swapped `continue`/`break`, +/- swaps) of the file
@@ -23,6 +23,7 @@ checks = arg("--checks").split(",")
 only = set(arg("--only").split(",")) if arg("--only") else None
 skip = set(arg("--skip").split(",")) if arg("--skip") else set()
 limit = int(arg("--limit", 10 ** 9))
+first = int(arg("--from", 1))        # resume: skip the mutants numbered below this (numbering unchanged)
 lines_only = set(int(x) for x in arg("--lines").split(",")) if arg("--lines") else None
 timeout = int(arg("--timeout", 1500))
 out = open(arg("--out"), "a") if arg("--out") else sys.stdout
@@ -175,6 +176,8 @@ try:
         except SyntaxError:
             continue
         n += 1
+        if n < first:
+            continue
         if "--list" in sys.argv:        # dry run: what would be applied (no check runs)
             print(json.dumps({"n": n, "kind": kind, "func": f, "line": getattr(node, "lineno", 0), "before": before,
                               "after": after}), file=out, flush=True)
